@@ -1019,6 +1019,30 @@ func (c *caseCtx) readChecks() {
 			h.NonTrivial("resume-deep")
 		}
 	}
+	// resume with the snapshot meta of an OLDER commit of the same chunk (the seek verifies up to the meta, then reads on)
+	{
+		fileOf := func(off int64) int {
+			k := 0
+			for i, f := range files {
+				if f.pos <= off {
+					k = i
+				}
+			}
+			return k
+		}
+		done := 0
+		for j := len(cms) - 1; j > 0 && done < 2; j-- {
+			for i := j - 1; i >= 0; i-- {
+				if cms[i].off < cms[j].off && fileOf(cms[i].off) == fileOf(cms[j].off) {
+					c.readCheck(files, cms[j].off, cms[i].meta, cms[j].off, dmg{kind: '-'}, crcs)
+					h.Stat("read.resumeOlderMetaSameFile", 1)
+					h.NonTrivial("resume-older-meta")
+					done++
+					break
+				}
+			}
+		}
+	}
 	for i, cm := range cms {
 		if i >= maxResume {
 			break
